@@ -163,7 +163,60 @@ func (c *c10Checker) Setup(x *Exec) *Violation {
 					// cancellation mid-operation: a timer cancels the context a little later (virtual time)
 					opctx, opcancel = context.WithTimeout(ctx, time.Duration(tr.Range(1, 3000))*time.Millisecond)
 				}
-				switch k := tr.Intn(10); {
+				switch k := tr.Intn(11); {
+				case k == 10: // squasher-like: ONE store object saved at successive boundaries, writes in flight while it moves on
+					fkv := cfg.NewFullKV(logger)
+					cur := map[string][]byte{}
+					end := init + 1 + uint64(tr.Intn(50))
+					var awg sync.WaitGroup
+					nsave := tr.Range(2, 4)
+					for sidx := 0; sidx < nsave; sidx++ {
+						nk := tr.Range(1, 5)
+						for i := 0; i < nk; i++ {
+							kk, v := fmt.Sprintf("k%d", tr.Intn(6)), binVal(tr)
+							if len(v) > 40 {
+								v = v[:40]
+							}
+							fkv.SetBytes(uint64(i), kk, v)
+							cur[kk] = v
+						}
+						if err := fkv.Flush(); err != nil {
+							fail(viol(prop, "flush_error", "flush: %v", err))
+							return
+						}
+						fkv.Reset()
+						end += 1 + uint64(tr.Intn(20))
+						file, w, err := fkv.Save(end)
+						if err != nil {
+							fail(viol(prop, "save_error", "save: %v", err))
+							return
+						}
+						m := &snapModel{partial: false, start: init, end: end, kv: map[string][]byte{}, name: cfg.Name() + "/" + file.Filename}
+						for kk, v := range cur {
+							m.kv[kk] = append([]byte(nil), v...)
+						}
+						mu.Lock()
+						if usedEnd[m.name] {
+							mu.Unlock()
+							continue
+						}
+						usedEnd[m.name] = true
+						m.issued = x.Sim.Steps()
+						models[m.name] = m
+						mu.Unlock()
+						awg.Add(1)
+						go func() { // asynchronous write, as the squasher does
+							defer awg.Done()
+							err := w.Write(opctx)
+							mu.Lock()
+							if err == nil {
+								m.acked, m.ackStep = true, x.Sim.Steps()
+							}
+							mu.Unlock()
+						}()
+					}
+					awg.Wait()
+					x.Probe("async_save_chain")
 				case k < 3: // save full
 					end := init + 1 + uint64(tr.Intn(200))
 					if tr.Chance(1, 5) {
